@@ -19,7 +19,7 @@ try:
     r=json.load(open(sys.argv[1]))
 except Exception as e:
     print("NO-REPORT"); sys.exit()
-bad=[o for o in r['obligations'] if o['status'] in ('failed','unknown') or (o['status']=='vacuous' and o['kind'].startswith('vacuity'))]
+bad=[o for o in r['obligations'] if (o['status'] in ('failed','unknown') and not o['kind'].startswith('known-inside')) or (o['status']=='vacuous' and o['kind'].startswith('vacuity'))]
 tags=sorted({t for o in bad for t in (o['tags'] or [])} | {o['kind'] for o in bad if not o['tags']})
 print(("KILLED by "+",".join(tags)) if bad else ("SURVIVED" if not r['errors'] else "ENGINE-ERROR "+r['errors'][0]))
 PY
